@@ -2,7 +2,7 @@
 (* Trace specification of the root module.  Events (harness/drv_pipeline.c): Reset, RegOp v rects (the region   *)
 (* variable after a region call: adopted -- the algebra itself is judged by C05-C07), Img id w h fmt px,         *)
 (* Solid id col, SetClip id v, SrcClip id on, SetRepeat id rep, SetTranslation id tx ty, SetCA id on, Ref id,    *)
-(* Unref id gone, Comp op s m d sx sy mx my dx dy w h after, Fill op d col boxes after.                          *)
+(* SetAlphaMap id a ax ay, Unref id gone, Comp op s m d sx sy mx my dx dy w h after, Fill op d col boxes after.                          *)
 (* Obligations: after a composite / fill the destination holds, on the bits its format defines,                 *)
 (* CompositeResult / FillResult pixel for pixel - the request reaches exactly the composite region with         *)
 (* exactly the operator's value, sampled where translation, repeat and format say; pixman_image_unref reports    *)
@@ -33,6 +33,7 @@ TSetRepeat == /\ Is("SetRepeat") /\ SetRepeat(Ev.id, Ev.rep) /\ Adv
 TSetTranslation == /\ Is("SetTranslation") /\ SetTranslation(Ev.id, Ev.tx, Ev.ty) /\ Adv
 TSetCA == /\ Is("SetCA") /\ SetComponentAlpha(Ev.id, Ev.on) /\ Adv
 TRef == /\ Is("Ref") /\ Ref(Ev.id) /\ Adv
+TSetAlphaMap == /\ Is("SetAlphaMap") /\ SetAlphaMap(Ev.id, Ev.a, Ev.ax, Ev.ay) /\ Adv
 TUnref == /\ Is("Unref") /\ Unref(Ev.id, Ev.gone) /\ Adv
 TComp == /\ Is("Comp")
          /\ Live(Ev.s) /\ Live(Ev.d) /\ (Ev.m = 0 \/ Live(Ev.m))
@@ -50,6 +51,6 @@ TFill == /\ Is("Fill")
 
 TInit == l = 1 /\ reg = [v \in 0..3 |-> Empty] /\ img = <<>>
 TNext == TReset \/ TRegOp \/ TImg \/ TSolid \/ TSetClip \/ TSrcClip \/ TSetRepeat \/ TSetTranslation \/ TSetCA
-         \/ TRef \/ TUnref \/ TComp \/ TFill
+         \/ TRef \/ TUnref \/ TSetAlphaMap \/ TComp \/ TFill
 TSpec == TInit /\ [][TNext]_tvars
 =============================================================================
